@@ -21,10 +21,12 @@ package witness
 //@   nopanic
 //@   ensures @header-matches-payload result == nil ==> wfW(w)
 
+// Public() returns a witness holding exactly the public prefix: nbPublic elements, no secret count.
 //@ contract (*witness).Public
 //@   props C07 C08
 //@   requires w != nil && knownVec(w.vector) && wfW(w)
 //@   nopanic
+//@   ensures[C07] @public-only result.1 == nil ==> typeIs(result.0, "*witness.witness") && as(result.0, "*witness.witness").nbSecret == 0 && as(result.0, "*witness.witness").nbPublic == w.nbPublic && dynlen(as(result.0, "*witness.witness").vector) == int(w.nbPublic)
 
 //@ contract (*witness).WriteTo
 //@   props C08
